@@ -32,6 +32,9 @@ def explore(ctx, art):
     # server side (real sockets, real time): a blocked DiscoveryRequest; Stop() with 0/1/3 connections whose handlers block
     lines += ["case udp discover live %s" % c for c in ("cancel", "deadline", "close")]
     lines += ["case %s srvstop k%d stop" % (t, k) for t in ("udp", "tcp", "dtls") for k in (0, 1, 3)]
+    # ... and with one more peer that connects right before Stop() while the application's OnNewConn callback for it is still
+    # running (150 ms): the connection is not in the server's table yet, only its own context can tell it about the stop
+    lines += ["case %s srvstop k%ds stop" % (t, k) for t in ("tcp", "dtls") for k in (0, 1)]
     # DTLS (pion's real handshake and record layer, loopback): the peer never answers the ClientHello; the peer completes the
     # handshake and stays silent / acknowledges without responding
     lines += ["case dtls %s handshake %s" % (o, c) for o in OPS if o != "obscancel" for c in ("cancel", "deadline", "close")]
